@@ -87,3 +87,7 @@ impl OccupiedSite {
         self.wyckoff.symmetries.iter()
     }
 }
+
+#[cfg(kani)]
+#[path = "/verif/kani/site.rs"]
+mod verif_kani;
